@@ -72,6 +72,13 @@ class Recorder:
                 if rec.cost:
                     outs['model_cost'] = costs
                 return outs
+        elif self.na == 0 and getattr(self, 'no_fidelity_arg', False):
+            # a single-fidelity model whose signature does not mention `model_fidelity` at all
+            def model(inputs):
+                y = dict(rec._one((), {n: inputs[n] for n in rec.in_names}))
+                if rec.cost:
+                    y['model_cost'] = rec.cost((), len(rec.calls) - 1)
+                return y
         else:
             def model(inputs, model_fidelity=None):
                 alpha = tuple(int(v) for v in model_fidelity) if (model_fidelity is not None and rec.na > 0) else ()
@@ -101,14 +108,17 @@ def build_component(f, nin, out_names, alpha_lim=(), beta_lim=None, surr_lim=(),
     return comp, rec
 
 
-def random_history(rng, comp, nsteps):
-    """activate a random admissible history (candidates chosen uniformly); returns the list of (alpha, beta)"""
+def random_history(rng, comp, nsteps, between=None):
+    """activate a random admissible history (candidates chosen uniformly); returns the list of (alpha, beta);
+    `between(step)` is called after every activation (e.g. to move an input domain)"""
     na = len(comp.model_fidelity)
     zero = ((0,) * na, (0,) * len(comp.max_beta))
     hist = []
     comp.activate_index(*zero)
     hist.append(zero)
-    for _ in range(nsteps):
+    for k_ in range(nsteps):
+        if between is not None:
+            between(k_)
         cands = sorted(comp.candidate_set)
         if not cands:
             break
